@@ -65,7 +65,7 @@ def parseTable (c : Json) : Except String (Table × Nat) := do
             | [x, y] => match x.getInt?, y.getInt? with | .ok x, .ok y => some (x, y) | _, _ => none
             | _ => none
           | _ => none
-        cols := cols ++ [(name, { rows := rows, nullCount := optNat cc "nc", minmax := mm, values := values })]
+        cols := cols ++ [(name, { rows := rows, nullCount := optNat cc "nc", minmax := mm, values := values, ub := (optNat cc "ub").getD 0 })]
       rgs := rgs ++ [{ rows := rows, cols := cols }]
   pure (rgs, bytes)
 
@@ -181,6 +181,7 @@ def handler : Driver.Handler := fun c i => do
       ++ (if !scanOk then ["scan-mismatch"] else [])
       ++ (if t.any (fun rg => rg.cols.any fun (_, ch) => ch.allNull && ch.rows > 0) then ["all-null-chunk"] else [])
       ++ (if t.length ≥ 5 then ["rg>=5"] else [])
+      ++ (if t.any (fun rg => rg.cols.any fun (_, ch) => ch.ub > 0) then ["unsigned-col"] else [])
     -- attribution: the known defect must explain the whole deviation, and the intended algorithm must satisfy the oracle
     let attr : Option String :=
       match o with
@@ -192,6 +193,7 @@ def handler : Driver.Handler := fun c i => do
         if (oracle m0 (some exp)).isSome then none
         else if impl == mF1 && scanOk then some "C18-F1"
         else if impl == mF2 && scanOk then some "C18-F2"
+        else if impl == modelOut { unsignedAsSigned := true } t bytes corrupt && scanOk then some "C18-F3"
         else none
     pure (mk o k tags attr)
 
